@@ -452,6 +452,11 @@ pub fn gen_submit_spec(
             }
             deps.sort_unstable();
             deps.dedup();
+            // clients do not de-duplicate dependency lists: a repeated id is valid input
+            if !deps.is_empty() && rng.chance(6, 100) {
+                let d = *rng.pick(&deps);
+                deps.push(d);
+            }
             tasks.push(GraphTask {
                 id,
                 deps,
